@@ -3,11 +3,13 @@ Driver for the transfer-function family: a postfix stack program per line.
 -/
 import CtrlVerif.Driver.Util
 import CtrlVerif.Model.TFDyn
+import CtrlVerif.Driver.TFAudit
 import Mathlib.Algebra.Field.Rat
 
 namespace CtrlVerif.Driver.TF
 
 open CtrlVerif CtrlVerif.Driver
+open CtrlVerif.Driver.TFAudit (sysExact valExact operandExact powExact feedbackExactOp binopExact)
 
 abbrev Q := Rat
 
@@ -104,42 +106,50 @@ def binop (name : String) (a b : Operand Q) : Except String (Except Err (Operand
   | "vcat", a, b => pure (wrap ((toSys a).vcat (toSys b)))
   | _, _, _ => throw s!"binop:{name}"
 
-partial def run (stack : List (Operand Q)) (mb : Nat := 0) : P String := do
+/-- error answer; `fx` as in `run` (includes the audit of the operation that failed: the steps
+the implementation executes before it raises). -/
+def errLine (e : Err) (fx : Bool) : String := showErr e ++ s!" fx={if fx then 1 else 0}"
+
+/-- `mb`: largest coefficient bit length of any intermediate result; `fx`: the float-exactness
+audit (`Driver/TFAudit.lean`) passed for every leaf and every operation so far. -/
+partial def run (stack : List (Operand Q)) (mb : Nat := 0) (fx : Bool := true) : P String := do
   if (← atEnd) then
     match stack with
-    | [x] => pure (s!"ok bits={max mb (bitsOp x)} " ++ showOperand x)
+    | [x] => pure (s!"ok bits={max mb (bitsOp x)} fx={if fx then 1 else 0} " ++ showOperand x)
     | _ => throw "stack"
   else
     let t ← tok
     match t with
     | "T" =>
       match (← pLeafTF) with
-      | .ok G => run (.sys (force G) :: stack) mb
-      | .error e => pure (showErr e)
-    | "S" => let c ← pRat; run (.scalar c :: stack) mb
-    | "A" => let a ← pLeafArray; run (a :: stack) mb
+      | .ok G => let G' := force G; run (.sys G' :: stack) mb (fx && sysExact G')
+      | .error e => pure (errLine e fx)
+    | "S" => let c ← pRat; run (.scalar c :: stack) mb (fx && valExact c)
+    | "A" => let a ← pLeafArray; run (a :: stack) mb (fx && operandExact a)
     | "neg" =>
       match stack with
       | x :: rest =>
         match DTF.Operand.neg x with
-        | .ok y => let y' := forceOp y; run (y' :: rest) (max mb (bitsOp y'))
-        | .error e => pure (showErr e)
+        | .ok y => let y' := forceOp y; run (y' :: rest) (max mb (bitsOp y')) fx
+        | .error e => pure (errLine e fx)
       | _ => throw "stack"
     | "pow" =>
       let k ← pInt
       match stack with
       | .sys G :: rest =>
         match G.pow k with
-        | .ok y => let y' := force y; run (.sys y' :: rest) (max mb (bitsOf y'))
-        | .error e => pure (showErr e)
+        | .ok y => let y' := force y; run (.sys y' :: rest) (max mb (bitsOf y')) (fx && powExact G k)
+        | .error e => pure (errLine e (fx && powExact G k))
       | _ => throw "stack"
     | "fb" =>
       let sign ← pRat
       match stack with
       | b :: .sys G :: rest =>
         match G.feedback b sign with
-        | .ok y => let y' := force y; run (.sys y' :: rest) (max mb (bitsOf y'))
-        | .error e => pure (showErr e)
+        | .ok y =>
+          let y' := force y
+          run (.sys y' :: rest) (max mb (bitsOf y')) (fx && feedbackExactOp G b sign)
+        | .error e => pure (errLine e (fx && feedbackExactOp G b sign))
       | _ => throw "stack"
     | "sel" =>
       let rows ← pList pNat
@@ -147,16 +157,18 @@ partial def run (stack : List (Operand Q)) (mb : Nat := 0) : P String := do
       match stack with
       | .sys G :: rest =>
         match G.select rows cols with
-        | .ok y => let y' := force y; run (.sys y' :: rest) (max mb (bitsOf y'))
-        | .error e => pure (showErr e)
+        | .ok y => let y' := force y; run (.sys y' :: rest) (max mb (bitsOf y')) fx
+        | .error e => pure (errLine e fx)
       | _ => throw "stack"
     | name =>
       match stack with
       | b :: a :: rest =>
         match binop name a b with
         | .error e => throw e
-        | .ok (.ok y) => let y' := forceOp y; run (y' :: rest) (max mb (bitsOp y'))
-        | .ok (.error e) => pure (showErr e)
+        | .ok (.ok y) =>
+          let y' := forceOp y
+          run (y' :: rest) (max mb (bitsOp y')) (fx && binopExact name a b)
+        | .ok (.error e) => pure (errLine e (fx && binopExact name a b))
       | _ => throw "stack"
 
 /-- the rest of the line after an error is not consumed: drop it. -/
